@@ -9,7 +9,7 @@ set -e
 D="$1"; [ -n "$D" ] || { echo "usage: $0 DIR"; exit 2; }
 HERE="$(cd "$(dirname "$0")/.." && pwd)"
 mkdir -p "$D"
-git -C /repo worktree add --detach -f "$D/repo" HEAD >/dev/null
+git -C /repo worktree add --detach -f "$D/repo" "${SBX_REPO_COMMIT:-HEAD}" >/dev/null
 rsync -a --exclude .git --exclude 'run-*' --exclude replays "$HERE/" "$D/verif/"
 sed -i "s#=> /repo#=> $D/repo#" "$D/verif/harness/go.mod"
 echo "sandbox ready: VERIF_REPO=$D/repo $D/verif/check Cxx quick"
